@@ -68,6 +68,7 @@ Definition run_case (st : dstate) (x : sexp) : dstate * outcome :=
   | SList [SAtom "c10.run"; a; b; c] => (st, run_c10 a b c)
   | SList [SAtom "c18.view"; a; b; c; d; e; f] => (st, run_c18_view a b c d e f)
   | SList [SAtom "c18.codec"; a; b; c] => (st, run_c18_codec a b c)
+  | SList [SAtom "rpair"; a; b; c; d; e; f] => (st, run_rpair a b c d e f)
   | SList [SAtom "c18.mut"; k; a; b; c; d; e; f; g] => (st, run_c18_mut k a b c d e f g)
   | SList [SAtom "c18.mut2"; k; a; b; c; d; e; f; g; h; i] => (st, run_c18_mut2 k a b c d e f g h i)
   | SList [SAtom "c16.roundtrip"; a; b; c; d; e] => (st, run_c16_roundtrip a b c d e)
